@@ -143,9 +143,9 @@ def c09_g2(ctx):
                 if x[0] in ("binop",) and x[1] in ("Eq", "Ne", "Lt", "Le", "Gt", "Ge"):
                     for side in (x[2], x[3]):
                         for y in walk(side):
-                            s = y[1] if y[0] == "place" else (y[2] if y[0] == "proj" else "")
+                            s = y[1] if y[0] == "place" else (expr_str(y) if y[0] == "proj" else "")
                             ty = y[2] if y[0] == "place" else (y[3] if y[0] == "proj" else "")
-                            if isinstance(s, str) and re.search(r"(\]|\*)\.0$", s) and ty == "u64":
+                            if isinstance(s, str) and re.search(r"(\]|\*)\)*\.0$", s) and ty == "u64":
                                 reads_start.append((line, expr_str(x)[:160]))
     if reads_start:
         yield ok("C09-G2", "Segments::is_complete:start", at(f, reads_start[0][0]), {"comparisons_on_a_start_offset": reads_start[:3]})
